@@ -164,7 +164,7 @@ func checkSigInput(o Obj, r *kit.R) {
 }
 
 func TestPropSigInput(t *testing.T) {
-	kit.Run(t, kit.Spec[Obj]{ID: "C16", Name: "signature-input", Check: checkSigInput, Quick: 3000, Thorough: 14000,
+	kit.Run(t, kit.Spec[Obj]{ID: "C16", Name: "signature-input", Check: checkSigInput, Quick: 2500, Thorough: 14000,
 		Gen:  func(t *rapid.T) Obj { return genObj(t, rapid.IntRange(0, 4).Draw(t, "sth") == 0, true) },
 		Rule: "SCT+LogEntry pairs (x509/precert/unknown entry types, both entry bodies populated, SCT timestamp/extensions different from the leaf's, certificate 0..2^24-1 and over, extensions ..65535 and over, non-V1 versions, non-timestamped leaf types) and STHs: SerializeSCTSignatureInput/SerializeSTHSignatureInput must equal, byte for byte, a harness-side transcription of RFC 6962 s3.2/s3.5, and must fail exactly when the object is not expressible. Non-trivial: every representable object, and unrepresentable ones with an empty/over-long field; distinct by case hash"})
 }
@@ -587,7 +587,7 @@ func checkVerify(c VerifyCase, r *kit.R) {
 }
 
 func TestPropVerify(t *testing.T) {
-	kit.Run(t, kit.Spec[VerifyCase]{ID: "C16", Name: "verify", Gen: genVerifyCase, Check: checkVerify, Quick: 2000, Thorough: 10000,
+	kit.Run(t, kit.Spec[VerifyCase]{ID: "C16", Name: "verify", Gen: genVerifyCase, Check: checkVerify, Quick: 1500, Thorough: 10000,
 		Rule: "an SCT+entry or STH is signed with a pool log key (RSA 2048..4096 incl. multi-prime, ECDSA P-256; occasionally non-compliant keys) by the Go standard library over the harness-side RFC 6962 signature input (deterministic signatures), then one input mutation (timestamp, certificate/TBS bit, extensions, entry type, key hash/root hash, tree size, version, leaf type, or only fields outside the signed structure) and/or one signature mutation (bit flip, truncation, trailing junk, empty, junk inside the ECDSA SEQUENCE, padded integer, signature over the other signature_type, zero/negative r,s), other verifier key, other declared/used hash or algorithm id is applied. VerifySCTSignature/VerifySTHSignature must accept iff std verification of the reference input of the PRESENTED object with the verifier's key accepts (SHA-256 only); a genuine (r,s) or RSA integer in a non-canonical encoding may go either way. Non-trivial: any mutation or foreign verifier key; distinct by case hash",
 		Assumptions: []string{"acceptance of a genuine ECDSA (r,s) wrapped in a non-canonical encoding (trailing bytes, extra SEQUENCE elements) is malleability outside the signed bytes and not a violation",
 			"keys that NewSignatureVerifier refuses (RFC 6962 s2.1.4) are outside the domain"}})
